@@ -33,7 +33,7 @@ fn raw(r: &mut Rng) -> Req {
 
 fn raw_list(r: &mut Rng) -> Req {
     let n = r.range(2, 6);
-    let fail_at = if r.chance(1, 3) { Some((*r.pick(&[0, n / 2, n - 1]), *r.pick(&[2u64, 5, 50, 56]))) } else { None };
+    let fail_at = if r.chance(1, 3) { Some((*r.pick(&[0, n / 2, n - 1]), *r.pick(&[2u64, 5, 50, 56, 1050, 1002]))) } else { None };
     Req::RawList { n, fail_at, shape: r.below(7) as u64 }
 }
 
@@ -167,7 +167,7 @@ pub fn directed(idx: u64, variant: u64, d: Duration) -> Scenario {
         16 => {
             let mut steps = Vec::new();
             for (n, f) in [(2usize, 0usize), (5, 2), (4, 3), (6, 0), (3, 1), (2, 1)] {
-                steps.push(Step::Do(Req::RawList { n, fail_at: Some((f, 50 + variant % 3)), shape: (variant + n as u64) % 7 }));
+                steps.push(Step::Do(Req::RawList { n, fail_at: Some((f, 50 + variant % 3 + if (n + f) % 2 == 0 { 1000 } else { 0 })), shape: (variant + n as u64) % 7 }));
             }
             steps.push(Step::Do(Req::RawList { n: 3, fail_at: None, shape: 4 }));
             s.callers = vec![(ms(20), steps)];
@@ -175,7 +175,7 @@ pub fn directed(idx: u64, variant: u64, d: Duration) -> Scenario {
         }
         // single command failing
         17 => {
-            s.callers = vec![(ms(20), vec![Step::Do(Req::RawList { n: 1, fail_at: Some((0, 50)), shape: 0 }), Step::Do(Req::Raw { shape: 1 }), Step::Do(Req::RawList { n: 1, fail_at: None, shape: 3 })])];
+            s.callers = vec![(ms(20), vec![Step::Do(Req::RawList { n: 1, fail_at: Some((0, 50)), shape: 0 }), Step::Do(Req::Raw { shape: 1 }), Step::Do(Req::RawList { n: 1, fail_at: Some((0, 1050)), shape: 0 }), Step::Do(Req::RawList { n: 1, fail_at: None, shape: 3 })])];
         }
         // P11: big replies and binary, byte-wise reads for the whole session (P13)
         18 => {
